@@ -40,12 +40,13 @@ partial def Schema.ofJson (j : Json) : Except String Schema := do
     let sz ← sizeOfJson j
     match optField j "items" with
     | none =>
-      if hasKey j "additionalItems" then throw "additionalItems without positional items"
+      -- `additionalItems` without positional items: kept by the generated `Array(additionalItems=…)` object
+      -- and emitted back, but it has no counterpart in `FieldDecl` (no runtime effect); the AST abstracts
+      -- from it and the harness compares the keyword on the real round trip literally
       pure (.arrAny sz)
     | some (.arr xs) =>
       pure (.arrPos (← xs.toList.mapM Schema.ofJson) (← optBool j "additionalItems" true) sz)
     | some x =>
-      if hasKey j "additionalItems" then throw "additionalItems without positional items"
       pure (.arrOf (← Schema.ofJson x) sz)
   | "object" =>
     match optField j "properties" with
